@@ -92,7 +92,8 @@ class QTensorLinear(torch.autograd.Function):
 
     @staticmethod
     def forward(ctx, input, other, bias):
-        ctx.save_for_backward(input, other)
+        # The input is only required to evaluate the gradient of the weights
+        ctx.save_for_backward(input if ctx.needs_input_grad[1] else None, other)
         if isinstance(other, AWQBitsTensor):
             if type(input) != torch.Tensor:
                 input = input.dequantize()
